@@ -14,6 +14,12 @@ P2  every distinct state of that graph is rebuilt on a real
 P3  all records (histories step by step, then one record per (state,
     operation)) plus long random histories over all conditions are validated
     by TLC against the abstract contract spec/TrapAbs.tla (Trace_Trap).
+P4  whole shell: TLC enumerates scripts from spec/TrapRun.tla (trap / kill /
+    subshell / pipeline / command substitution / loop / function at every
+    syntactic position, nested; signals from a background process under
+    enumerated schedules) together with the set of probe traces the
+    specification allows; the real shell runs them on the simulated OS and
+    every observed trace must be a member of that set.
 """
 import json
 import os
@@ -34,6 +40,7 @@ QUICK = [
     ("MC_Trap_kill_stop_exit.cfg", "KILL,STOP,EXIT"),
     ("MC_Trap_usr_exit.cfg", "USR1,EXIT"),
 ]
+QUICK_NAMES = {c for c, _ in QUICK}
 # thorough: generated configurations (sigs, with EXIT, history bound)
 THOROUGH_GEN = [
     (("CHLD", "INT"), False, 100),
@@ -177,7 +184,7 @@ def _short(o):
 def _generate(wd, cfg, conds, name, workers):
     """TLC model check + state enumeration, then replay on the real TrapSet."""
     gen = os.path.join(wd, name + ".states.ndjson")
-    r = vlib.tlc("Trap", cfg, workers=workers, json_out=gen, coverage=(name == QUICK[1][0]), timeout=2400,
+    r = vlib.tlc("Trap", cfg, workers=workers, json_out=gen, coverage=(name in QUICK_NAMES), timeout=2400,
                  workdir=os.path.join(wd, "meta-" + name))
     vlib.tlc_must_pass(r, f"model check {name}")
     vlib.log(f"[tlc] {name}: {r.distinct} distinct states, {r.generated} generated, depth {r.depth}, {r.wall:.1f}s")
@@ -186,6 +193,95 @@ def _generate(wd, cfg, conds, name, workers):
     st = json.loads(err.strip().splitlines()[-1])
     os.remove(gen)
     return r, st, trace
+
+
+SIM_WAIT_ARTIFACT = "no job to wait for"
+
+
+def _ev(e):
+    return (e["t"], e["st"], e["d"])
+
+
+def _shell_symptom(ob, allowed):
+    """Classification of a non-member trace (used only to match known findings)."""
+    om, oc = [_ev(e) for e in ob["m"]], [_ev(e) for e in ob["c"]]
+    istrap = lambda e: e[0].startswith("T")
+    for a in allowed:
+        am, ac = [_ev(e) for e in a["m"]], [_ev(e) for e in a["c"]]
+        # only recorded dispositions differ
+        if len(am) == len(om) and len(ac) == len(oc):
+            diffs = [(x, y) for x, y in zip(am + ac, om + oc) if x != y]
+            if diffs and all(x[0] == y[0] and x[1] == y[1] for x, y in diffs):
+                return "disposition-differs:" + ",".join(f"{x[0]}:{x[2]}->{y[2]}" for x, y in diffs)
+    for a in allowed:
+        am, ac = [_ev(e) for e in a["m"]], [_ev(e) for e in a["c"]]
+        if ac != oc or [e for e in am if not istrap(e)] != [e for e in om if not istrap(e)]:
+            continue
+        def positions(tr):
+            pos, k = [], 0
+            for e in tr:
+                if istrap(e):
+                    pos.append(k)
+                else:
+                    k += 1
+            return pos
+        pa, po = positions(am), positions(om)
+        # the action ran, no earlier than allowed, but not where allowed (later position, later $?,
+        # or fewer runs because a later delivery coalesced with the one still unhandled)
+        if 1 <= len(po) <= len(pa) and all(x >= y for x, y in zip(po, pa)):
+            return "trap-action-ran-late"
+    if not any(istrap(e) for e in om) and any(any(istrap(_ev(e)) for e in a["m"]) for a in allowed):
+        return "trap-action-never-ran"
+    return "other"
+
+
+def phase2(rep, wd, tier):
+    """Whole shell: scripts generated from spec/TrapRun.tla; observed traces must be allowed."""
+    progs = os.path.join(wd, "programs.ndjson")
+    cfg = "Gen_TrapRun.cfg" if tier == "quick" else "Gen_TrapRun_big.cfg"
+    r = vlib.tlc("TrapRun", cfg, workers=4, json_out=progs, timeout=1200, workdir=os.path.join(wd, "meta-traprun"))
+    vlib.tlc_must_pass(r, f"program generation {cfg}")
+    obs = os.path.join(wd, "observed.ndjson")
+    dfs, cap, nrand = (8, 200, 3) if tier == "quick" else (10, 2000, 10)
+    _, _, err = vlib.run_harness(PKG, ["shell", "--in", progs, "--out", obs, "--dfs", str(dfs), "--cap", str(cap),
+                                       "--random", str(nrand)])
+    st = json.loads(err.strip().splitlines()[-1])
+    n_prog = n_obs = n_bad = n_skip = 0
+    fams = {}
+    samples = []
+    for o in vlib.read_ndjson(obs):
+        n_prog += 1
+        fam = o["fam"].split(":")[0]
+        fams[fam] = fams.get(fam, 0) + 1
+        allowed = {json.dumps({"m": a["m"], "c": a["c"]}, sort_keys=True) for a in o["allowed"]}
+        if len(samples) < 2 and o["fam"] in ("sync1:sub", "nested"):
+            samples.append({"script": o["script"], "allowed": o["allowed"],
+                            "observed": [{"m": x["m"], "c": x["c"]} for x in o["observed"]]})
+        for ob in o["observed"]:
+            if SIM_WAIT_ARTIFACT in ob.get("stderr", ""):
+                # the simulator's wait(-1) reports ECHILD although a child is alive (a reaped child
+                # follows it in pid order): the script ends before the signal is sent.  Not a
+                # behaviour of the shell; skipped and counted.
+                n_skip += ob["count"]
+                continue
+            n_obs += 1
+            member = json.dumps({"m": ob["m"], "c": ob["c"]}, sort_keys=True) in allowed
+            if ob["outcome"] == "completed" and member:
+                continue
+            n_bad += 1
+            key = {"phase": "shell", "fam": o["fam"], "symptom": _shell_symptom(ob, o["allowed"]) if ob["outcome"] == "completed" else ob["outcome"],
+                   "script": o["script"], "schedule": ob["schedule"]}
+            rep.violation(key, f"whole shell, {o['fam']}: observed probe trace not allowed by TrapRun",
+                          {"phase": "shell", "script": o["script"], "init": o["init"], "schedule": ob["schedule"],
+                           "observed": ob, "allowed": o["allowed"]})
+    vlib.log(f"[p4] whole shell: {n_prog} generated scripts, {st['runs']} runs, {n_obs} distinct observed traces "
+             f"checked for membership, {n_bad} not allowed, {n_skip} runs skipped (simulator wait artifact); TLC {r.wall:.1f}s")
+    os.remove(progs)
+    os.remove(obs)
+    return {"scripts": n_prog, "runs": st["runs"], "distinct_traces_checked": n_obs, "not_allowed": n_bad,
+            "runs_skipped_simulator_wait_artifact": n_skip, "families": fams, "generator_cfg": cfg,
+            "schedule_exploration": {"dfs_depth": dfs, "cap": cap, "random_per_script": nrand},
+            "samples": samples}
 
 
 def run(tier):
@@ -249,6 +345,7 @@ def run(tier):
                            "depth": r.depth, "live_states_replayed": st["states"], "tries": st["tries"],
                            "records": pc["records"], "rejected": pc["rejected"],
                            "skipped_downstream_of_a_rejected_step": pc["skipped"], "drift": st["drift"]})
+    p2 = phase2(rep, wd, tier)
     rr = info["per_range"]["random"]
     vlib.log(f"[p3] random histories: {runs} histories of <= {steps} operations over {len(ALL_CONDS)} conditions, "
              f"{rr['records']} records, {rr['rejected']} rejected")
@@ -257,9 +354,9 @@ def run(tier):
     vlib.write_evidence(PID, tier, {
         "states": states,
         "transitions": transitions,
-        "traces_validated_against_impl": info["events"],
-        "samples": samples,
-        "evaluations": info["events"],
+        "traces_validated_against_impl": info["events"] + p2["distinct_traces_checked"],
+        "samples": samples + p2.pop("samples"),
+        "evaluations": info["events"] + p2["runs"],
         "distinct_nontrivial": tries,
         "rule": "one record per (distinct live model state, operation of the alphabet) executed on the real TrapSet "
                 "over the simulated process; history steps and random histories are counted in `evaluations` only",
@@ -273,11 +370,15 @@ def run(tier):
         "records_rejected": info["failures"],
         "records_skipped_downstream_of_a_rejected_step": info["skipped"],
         "drift": drift,
-        "phase2_whole_shell": "not run (shared shell runner yvcommon::shell absent)",
+        "whole_shell": p2,
     }, time.time() - t0, violations=len(rep.violations), assumptions=[
         "the inherited signal mask is empty; inherited dispositions range over {default, ignored} per signal",
         "coalescing of deliveries of one signal that arrive before the same poll is allowed (POSIX standard signals)",
         "a signal delivered under the default action ends the history (the shell is killed or stopped)",
+        "whole shell: the simulator is cooperative, so a signal from another process arrives only where the main "
+        "shell blocks (foreground subshell, command substitution, wait); arrival at every other position is "
+        "exercised by the shell signalling itself (kill -s SIG $$) at that position",
+        "whole shell: on interrupting `wait` the trap action may see either the previous $? or wait's own (> 128)",
         "TLC 1.8.0 and the JSON community module are trusted",
     ])
     return rc
@@ -290,6 +391,8 @@ def replay(path):
     with open(path) as f:
         obj = json.load(f)
     rec = obj["replay"]
+    if rec.get("phase") == "shell":
+        return _replay_shell(path, rec)
     wd = vlib.workdir(PID + "-replay")
     src = os.path.join(wd, "in.ndjson")
     with open(src, "w") as f:
@@ -303,3 +406,23 @@ def replay(path):
         return 1
     print("accepted")
     return 0
+
+
+def _replay_shell(path, rec):
+    args = ["shell1", "--script", rec["script"], "--init", json.dumps(rec["init"])]
+    sch = rec.get("schedule", "fifo")
+    m = re.match(r"prefix\[(.*)\]", sch)
+    if m:
+        args += ["--prefix", m.group(1).replace(" ", "")]
+    elif sch.startswith("random"):
+        args += ["--seed", sch[len("random"):]]
+    _, out, _ = vlib.run_harness(PKG, args)
+    ob = json.loads(out.splitlines()[0])["observed"]
+    allowed = {json.dumps({"m": a["m"], "c": a["c"]}, sort_keys=True) for a in rec["allowed"]}
+    ok = ob["outcome"] == "completed" and json.dumps({"m": ob["m"], "c": ob["c"]}, sort_keys=True) in allowed
+    print("observed:", json.dumps({"m": ob["m"], "c": ob["c"], "outcome": ob["outcome"]}))
+    if ok:
+        print("accepted")
+        return 0
+    print(f"VIOLATION property={PID} replay={path}")
+    return 1
